@@ -135,6 +135,18 @@ CHECKS = {
         "explanation": "every-prefix loads vs extracted model",
         "assumptions": ["crash = prefix"],
     },
+
+    "C16": {
+        "harness": ["c16"], "level": "proof",
+        "technique": "Coq theorems over three-valued (Ok/Err/Panic) parser models on code-point strings: totality for ALL strings, validity of returned observations, print-parse round trips + per-run comparison on grammar-guided and malformed strings",
+        "level_text": "Theorems over the executable model of every TryFrom<&str> / Display pair: no string makes any parser panic (byte-indexed slicing is modelled through UTF-8 lengths), a returned observation is well formed, every value's printed form parses back to it. The model follows the code at the repaired sites through flags regenerated from the source. Per run the implementation is run under catch_unwind on valid encodings, mutated encodings (dropped / duplicated / transposed / case-flipped / foreign tokens) and a malformed stream over a fixed alphabet (whitespace variants, NUL, 2-, 3-, 4-byte UTF-8, combining marks, case-mapping oddities), outcome compared as Ok value / Err / Panic; print-parse over sampled values.",
+        "level_note": "Trusted: Coq kernel, model (validated per run), translator flags, extraction + glue, harness. The std string functions (trim, split_whitespace, to_uppercase/to_lowercase, str::parse) are modelled by tables validated on the harness alphabet only.",
+        "rule": "parse kind string: TryFrom<&str> for each of the 8 kinds on a fixed corpus (empty, whitespace-only, the recorded defect witnesses), valid encodings, 1-3 random edits of valid encodings, encodings of other kinds, random alphabet strings; print kind value: Display then TryFrom. distinct = distinct (kind, string)",
+        "exhaustive": {"quick": False, "thorough": False},
+        "explanation": "three-valued outcome of every parser vs extracted model; panic / invalid observation / failed round trip are violations",
+        "trusted_base": ["Model/Parse.v hand written; std string functions modelled by tables"],
+        "assumptions": ["case mapping and White_Space tables as listed in Model/Parse.v"],
+    },
     "C15": {
         "harness": "c15", "level": "proof",
         "technique": "Coq theorems (round trips, injectivity, key-set NoDup by reflection) over an executable codec model + per-run model/implementation correspondence on integer codes",
